@@ -8,6 +8,7 @@ Exit 0: property held on everything explored.  Exit 1: violation (a line
 import argparse
 import json
 import os
+import re
 import sys
 import time
 
@@ -79,6 +80,12 @@ def thorough_matrix():
                 out["%s-l%d%d%d%s-%d" % (f, pocca, pocma, pocs, "ae" if ae else "", k)] = cfg(f, 1, n[0], n[1], pocca, pocma, pocs, ae, construct=int(i % 5 == 0))
                 i += 1
     return out
+
+
+def compile_cmd_of(err):
+    """The compile command recorded in a BuildError diagnostic (used as the replay of a compile rejection)."""
+    m = re.match(r"CMD: (.*)", getattr(err, "diag", "") or "")
+    return m.group(1).split() if m else ["false"]
 
 
 def hist_run(c, flavour, args, name=None):
@@ -628,7 +635,7 @@ def check_C19(tier, seed):
     cmds, names = [], []
     for j, b in zip(jobs, bins):
         if isinstance(b, BuildError):
-            rp.add_violation("layout|C19|compile-rejected|%s" % j["name"], "layout probe rejected by the compiler: %s" % b.diag[-2000:], {"engine": "layout", "replay_cmd": ["false"]})
+            rp.add_violation("layout|C19|compile-rejected|%s" % j["name"], "layout probe rejected by the compiler: %s" % b.diag[-2000:], {"engine": "layout", "replay_cmd": compile_cmd_of(b)})
             continue
         cmds.append([b]); names.append(j["name"])
     results = run_many(cmds, timeout=1200)
@@ -695,7 +702,7 @@ def check_C20(tier, seed):
     cmds, outs = [], []
     for bi, b in enumerate(bins):
         if isinstance(b, BuildError):
-            rp.add_violation("gdbmon|C20|inferior-rejected|%s" % builds[bi][0], "the debugger inferior does not compile: %s" % b.diag[-2000:], {"engine": "gdbmon", "replay_cmd": ["false"]})
+            rp.add_violation("gdbmon|C20|inferior-rejected|%s" % builds[bi][0], "the debugger inferior does not compile: %s" % b.diag[-2000:], {"engine": "gdbmon", "replay_cmd": compile_cmd_of(b)})
             continue
         for r in range(runs if bi == 0 else max(2, runs // 3)):
             out = os.path.join(out_dir, "out-%s-%d-%d-%d.jsonl" % (tier, seed, bi, r))
@@ -775,7 +782,7 @@ def check_C17(tier, seed):
             for bi in bad:
                 rp.add_violation("xstd|C17|feature-rejected|F%d|%s" % (f, names[bi]),
                                  "%s: accepted by %s but rejected by %s: %s" % (FEATURES[f], ", ".join(names[b] for b in ok[:4]), names[bi], per[("diag", bi)][-1200:]),
-                                 {"engine": "xstd", "replay_cmd": ["false"], "feature": f, "build": names[bi]})
+                                 {"engine": "xstd", "replay_cmd": ["bash", "-c", per[("diag", bi)].split("\n")[0][5:]], "feature": f, "build": names[bi]})
     rp.extra["features_rejected_by_some_build"] = disabled
     specs = []
     for cc, std, noconcepts in builds:
@@ -793,7 +800,7 @@ def check_C17(tier, seed):
     for bi, b in enumerate(bins):
         if isinstance(b, BuildError):
             rp.add_violation("xstd|C17|corpus-rejected|%s" % names[bi], "build %s rejects the corpus that other builds accept: %s" % (names[bi], b.diag[-2500:]),
-                             {"engine": "xstd", "replay_cmd": ["false"], "build": names[bi]})
+                             {"engine": "xstd", "replay_cmd": compile_cmd_of(b), "build": names[bi]})
             continue
         for sh in range(nsh):
             cmds.append([b, "--seed", str(seed + sh * 7919), "--cases", str(cases // nsh), "--len", "50"])
@@ -956,7 +963,7 @@ def check_C13(tier, seed):
         if ok_twin and not ok_triv:
             rp.add_violation("accept|C13|trivial-variant-rejected|%s|%s" % (desc, "+".join(flags) or "none"),
                              "%s on small_vector<T,%d> (%s): accepted for the non-trivial archetype {%s} but rejected for its trivially copyable twin: %s" % (desc, n, std, ", ".join(flags) or "no special members", r.diag[-1500:]),
-                             {"engine": "accept", "replay_cmd": ["false"], "call": call, "flags": list(flags), "std": std})
+                             {"engine": "accept", "replay_cmd": compile_cmd_of(r), "call": call, "flags": list(flags), "std": std})
     rp.coverage["counters"]["acceptance-probes"] = probes
     floor(rp, "twin-histories", 100, "twin histories compared")
     floor(rp, "acceptance-probes", 40, "acceptance probes compiled")
